@@ -59,11 +59,30 @@ def tree_digest(root):
     return h.hexdigest()[:16]
 
 
-def prepare_scratch(modules, need_ref=False):
+_SCRATCH_LOCKS = []
+
+
+def prepare_scratch(modules, need_ref=False, tag=None):
+    """The scratch path is part of cargo's package id and therefore of every symbol hash in the goto binary; CBMC's
+    verdict on one harness (k02e_stored_mirror) was observed to depend on it.  The path is therefore a fixed function of
+    property: a check (either tier) repeats exactly the build it ran last time.  A second concurrent run of the same check
+    falls back to a random directory."""
     os.makedirs(SCRATCH_BASE, exist_ok=True)
-    fixed = os.environ.get("VERIF_SCRATCH_NAME")  # developer aid: reproducible scratch path
+    fixed = os.environ.get("VERIF_SCRATCH_NAME")  # developer aid: choose the scratch path
+    scratch = None
     if fixed:
         scratch = os.path.join(SCRATCH_BASE, "pfverif." + fixed)
+    elif tag:
+        import fcntl
+        cand = os.path.join(SCRATCH_BASE, "pfverif." + tag)
+        lk = open(cand + ".lock", "a")
+        try:
+            fcntl.flock(lk, fcntl.LOCK_EX | fcntl.LOCK_NB)
+            _SCRATCH_LOCKS.append(lk)
+            scratch = cand
+        except OSError:
+            lk.close()
+    if scratch:
         shutil.rmtree(scratch, ignore_errors=True)
         os.makedirs(scratch)
     else:
@@ -321,7 +340,7 @@ def run_harness(h, base_t, dst, scratch, envadd, playback=False, scale=1.0, slic
                 cmd += ["--slice-formula"]
         logpath = os.path.join(logd, name + ((".playback_sliced" if sliced_playback else ".playback") if playback else "") + ".log")
         rc, out, to = run_limited(cmd, dst, env, logpath, h.get("timeout", 300) * (3 if playback else 1) * (2 if scale != 1.0 else 1),
-                                  min(48, h.get("mem_gb", 8) * (2 if playback else 1) * scale))
+                                  min(float(os.environ.get("VERIF_MEM_CAP_GB", "48")), h.get("mem_gb", 8) * (2 if playback else 1) * scale))
         res["log"] = logpath
         pr = parse_kani(out)
         res.update(pr)
@@ -388,7 +407,83 @@ def match_known(known, prop, hname, fail):
 PLAYBACK_RE = re.compile(r"Concrete playback unit test for `[^`]*`:\n```\n(.*?)\n```", re.S)
 
 
-def replay_native(tests, module, scratch, tag, envadd=None, descs=None):
+
+# ---------------------------------------------------------------------------
+# stub-aware native replay
+# ---------------------------------------------------------------------------
+STUB_LINE_RE = re.compile(r"^\s*- Stub: (.+?) -> (.+?)\s*$", re.M)
+STD_STUBS = ("add_context", "fmt :: format", "From <", "alloc ::", "std ::", "core ::", "crc32fast")
+
+
+def harness_stubs(logtext):
+    """(original path, stub path) pairs Kani reports for a harness, limited to free functions of the crate
+    (`crate::module::function`) - the ones that can be redirected textually in a native build."""
+    out = []
+    for orig, stub in STUB_LINE_RE.findall(logtext or ""):
+        if any(k in orig for k in STD_STUBS):
+            continue
+        o = orig.replace(" ", "")
+        st = stub.replace(" ", "")
+        m = re.match(r"^crate::(\w+)::(\w+)$", o)
+        if not m:
+            continue
+        out.append((m.group(1), m.group(2), st))
+    return out
+
+
+def apply_stubs_natively(rdir, scratch, harness_module, stubs):
+    """In the replay copy only: rename each stubbed function and add a forwarder with the stub's own header that calls
+    the stub, so that the native run takes the same path as the solver's run (kani::any() inside the stubs is fed from
+    the recorded values in the same order).  Returns the list of redirections made."""
+    done = []
+    hdir = os.path.join(scratch, "harness")
+    htexts = {fn[:-3]: open(os.path.join(hdir, fn)).read() for fn in os.listdir(hdir) if fn.endswith(".rs")}
+    for mod, fname, stub in stubs:
+        sp = os.path.join(rdir, "src", mod + ".rs")
+        if not os.path.exists(sp):
+            continue
+        sname = stub.split("::")[-1]
+        # where is the stub defined?
+        smod = None
+        if "::" in stub:
+            mm = re.match(r"^crate::(\w+)::verif_harness::\w+$", stub) or re.match(r"^crate::(verif_common)::\w+$", stub)
+            if mm:
+                smod = "common" if mm.group(1) == "verif_common" else mm.group(1)
+        else:
+            smod = harness_module
+        if smod is None or smod not in htexts:
+            continue
+        hm = re.search(r"^\s*(?:pub(?:\([a-z]+\))?\s+)?(?:unsafe\s+)?fn\s+%s\s*(<[^>]*>)?\s*\((.*?)\)\s*(->\s*[^{]+?)?\s*\{" % re.escape(sname), htexts[smod], re.M | re.S)
+        if not hm:
+            continue
+        generics, params, ret = hm.group(1) or "", hm.group(2), hm.group(3) or ""
+        names = []
+        depth = 0
+        cur = ""
+        for ch in params + ",":
+            if ch in "<([":
+                depth += 1
+            elif ch in ">)]":
+                depth -= 1
+            if ch == "," and depth == 0:
+                if cur.strip():
+                    names.append(cur.strip().split(":")[0].strip().replace("mut ", ""))
+                cur = ""
+            else:
+                cur += ch
+        src = open(sp).read()
+        om = re.search(r"^(\s*)((?:pub(?:\([a-z]+\))?\s+)?)fn\s+%s\b" % re.escape(fname), src, re.M)
+        if not om:
+            continue
+        src = src[:om.start()] + om.group(1) + om.group(2) + "fn " + fname + "__verif_real" + src[om.end():]
+        path = "crate::verif_common::" + sname if smod == "common" else "crate::%s::verif_harness::%s" % (smod, sname)
+        src += "\n#[allow(dead_code, private_interfaces)]\n%sfn %s%s(%s) %s {\n    %s(%s)\n}\n" % (om.group(2), fname, generics, params, ret, path, ", ".join(names))
+        open(sp, "w").write(src)
+        done.append("%s::%s -> %s" % (mod, fname, path))
+    return done
+
+
+def replay_native(tests, module, scratch, tag, envadd=None, descs=None, stubs=None):
     """Run the generated concrete-playback unit tests natively (`cargo kani playback`: an ordinary
     `cargo test` build of the scratch copy with cfg(kani) and kani::any() fed from the solver's
     assignment).  Stubs are NOT active natively: the real add_context/format/From<io::Error> run.
@@ -410,6 +505,7 @@ def replay_native(tests, module, scratch, tag, envadd=None, descs=None):
     open(sp, "w").write(s)
     names = [re.search(r"fn (kani_concrete_playback_\w+)", t).group(1) for t in tests]
     results = {n: {} for n in names}
+    redirected = apply_stubs_natively(rdir, scratch, module, stubs) if stubs else []
     for prof in ("dev", "release_like"):
         env = dict(ENV)
         env.update(envadd or {"VERIF_GEN": os.path.join(scratch, "gen")})
@@ -417,7 +513,7 @@ def replay_native(tests, module, scratch, tag, envadd=None, descs=None):
             env.update({"CARGO_PROFILE_DEV_OPT_LEVEL": "3", "CARGO_PROFILE_DEV_DEBUG_ASSERTIONS": "false",
                         "CARGO_PROFILE_DEV_OVERFLOW_CHECKS": "false"})
         for n in names:
-            cmd = ["cargo", "kani", "playback", "-Z", "concrete-playback", "--lib", "--", n]
+            cmd = ["cargo", "kani", "playback", "-Z", "concrete-playback", "--lib", "--", n, "--nocapture"]
             try:
                 rc, out = sh(cmd, cwd=rdir, env=env, timeout=1800)
             except subprocess.TimeoutExpired:
@@ -432,7 +528,7 @@ def replay_native(tests, module, scratch, tag, envadd=None, descs=None):
             artefact = re.search(r"Not enough det vals found|bytes in the following det vals vec|concrete values left over|kani::assume should always hold", out) is not None
             msg = any(d.strip('"') and d.strip('"') in out for d in (descs or []))
             results[n][prof] = {"rc": rc, "failed": bool(((line and line.group(1) == "FAILED") or aborted) and not artefact), "artefact": artefact, "msg_match": msg,
-                                "ran": bool(line) or aborted, "aborted": bool(aborted), "tail": out[-1200:]}
+                                "ran": bool(line) or aborted, "aborted": bool(aborted), "tail": out[-1200:], "stubs_applied_natively": redirected}
     shutil.rmtree(os.path.join(rdir, "target"), ignore_errors=True)
     return results, names
 
@@ -547,7 +643,7 @@ def do_check(prop, tier, only, jobs):
             scratch, dst, digest = reuse, os.path.join(reuse, "repo"), "reused"
             os.environ["VERIF_KEEP"] = "1"
         else:
-            scratch, dst, digest = prepare_scratch(modules, need_ref=need_ref)
+            scratch, dst, digest = prepare_scratch(modules, need_ref=need_ref, tag=prop)
         log("[%s/%s] scratch %s (tree %s), %d harnesses" % (prop, tier, scratch, digest, len(hs)))
         # C04: announced format change => pass without equivalences (DESIGN §C04)
         extra = {"digest": digest, "coverage": {}}
@@ -654,7 +750,18 @@ def do_check(prop, tier, only, jobs):
             tests = [t for t in tests if "Check for `cover`" not in t][:4]
             if tests:
                 try:
+                    hstubs = harness_stubs(open(r["log"], errors="replace").read() if r.get("log") and os.path.exists(r["log"]) else "")
                     nat, names = replay_native(tests, h["module"], scratch, h["name"], envadd, [fl["desc"] for fl in new])
+                    if hstubs and not any(v.get("failed") for n in names for v in nat.get(n, {}).values()):
+                        # the harness replaces callees by contract stubs: without them the native run takes another path.
+                        # Second native run with the same stubs redirected textually in the replay copy.
+                        log("  native replay of %s without its contract stubs passes; replaying with the stubs applied natively" % h["name"])
+                        nat2, _ = replay_native(tests, h["module"], scratch, h["name"] + "_stubs", envadd, [fl["desc"] for fl in new], stubs=hstubs)
+                        for n in names:
+                            for prof, v in nat2.get(n, {}).items():
+                                v["failed"] = bool(v.get("failed") and v.get("msg_match"))  # must carry the failing check's own message
+                                nat.setdefault(n, {})[prof + "+contract_stubs"] = v
+                        rec["stubs_applied_natively"] = hstubs
                 except Exception as e:  # noqa
                     nat, names = {"error": repr(e)}, []
                 for t, n in zip(tests, names):
@@ -698,7 +805,14 @@ def do_replay(path):
         bad = False
         norun = False
         envadd = run_generators(scratch, dst)
-        nat, names = replay_native([t["test_src"] for t in rec["tests"]], rec["module"], scratch, "r", envadd)
+        stubs = [tuple(x) for x in rec.get("stubs_applied_natively") or []] or None
+        descs = [fl["desc"] for fl in rec.get("failed_checks", [])]
+        nat, names = replay_native([t["test_src"] for t in rec["tests"]], rec["module"], scratch, "r", envadd, descs, stubs=stubs)
+        if stubs:
+            log("replaying with the harness's contract stubs applied natively: %s" % ", ".join("%s::%s" % (a, b) for a, b, _ in stubs))
+            for n in names:
+                for prof, v in nat[n].items():
+                    v["failed"] = bool(v.get("failed") and v.get("msg_match"))
         for n in names:
             for prof, v in nat[n].items():
                 log("replay %s [%s]: %s" % (n, prof, "FAILS (violation reproduced)" if v["failed"] else ("passes" if v["ran"] else "DID NOT RUN (native build failed): " + v["tail"][-400:])))
